@@ -102,10 +102,12 @@ class LipschitzOperator(Function):
         see [1, 2, 3] or e.g., [4, Fact 2].
         """
 
-        self.add_constraints_from_two_lists_of_points(list_of_points_1=self.list_of_points,
-                                                      list_of_points_2=self.list_of_points,
-                                                      constraint_name="lipschitz_continuity",
-                                                      set_class_constraint_i_j=
-                                                      self.set_lipschitz_continuity_constraint_i_j,
-                                                      symmetry=True,
-                                                      )
+        # With L == np.inf, the class implies no constraint (see the message printed by the constructor).
+        if self.L != np.inf:
+            self.add_constraints_from_two_lists_of_points(list_of_points_1=self.list_of_points,
+                                                          list_of_points_2=self.list_of_points,
+                                                          constraint_name="lipschitz_continuity",
+                                                          set_class_constraint_i_j=
+                                                          self.set_lipschitz_continuity_constraint_i_j,
+                                                          symmetry=True,
+                                                          )
